@@ -514,10 +514,53 @@ pub fn run(cx: &Cx) -> Report {
         |db| json!({"db": db}),
     ));
     rep.mark(cx, "generated");
+    // an exact definition also wins when what it defines is a substance: the bare name must
+    // answer as that substance, not as a prefix + unit or plural reading of the same letters
+    {
+        let ctx = rinkx::new_ctx();
+        let mut st = Stats::new();
+        for (name, _) in ctx.registry.substances.iter() {
+            if ctx.registry.units.contains_key(name) || ctx.registry.base_units.contains(&name[..]) || crate::gen::units::unusable(name).is_some() {
+                continue;
+            }
+            st.eval();
+            st.class("substance_name_defined_exactly");
+            let other_reading = ctx.lookup(name);
+            if other_reading.is_some() {
+                st.nontrivial(name);
+                st.nt_sample(|| json!(name));
+            }
+            match rinkx::eval_line(&ctx, name) {
+                rinkx::Out::Reply(rink_core::output::QueryReply::Substance(_)) => {}
+                other => {
+                    let sig = "exact-substance-name-read-as-something-else";
+                    if known.contains(sig) {
+                        st.known(sig, name);
+                    } else {
+                        rep.violations.push(Violation {
+                            phase: "substance-names".into(),
+                            case: json!({"substance_name": name}),
+                            detail: format!("[{}] `{}` is defined exactly (as a substance) but answers: {}", sig, name, other.describe().chars().take(200).collect::<String>()),
+                        });
+                    }
+                }
+            }
+        }
+        rep.stats.merge(st);
+        rep.mark(cx, "substance-names");
+    }
     rep
 }
 
 pub fn replay(cx: &Cx, _phase: &str, case: &J, st: &mut Stats) -> CaseResult {
+    if let Some(name) = case.get("substance_name").and_then(|n| n.as_str()) {
+        let ctx = rinkx::new_ctx();
+        st.eval();
+        return match rinkx::eval_line(&ctx, name) {
+            rinkx::Out::Reply(rink_core::output::QueryReply::Substance(_)) => Ok(()),
+            other => Err(format!("[exact-substance-name-read-as-something-else] `{}` is defined exactly (as a substance) but answers: {}", name, other.describe().chars().take(200).collect::<String>())),
+        };
+    }
     if let Some(name) = case.get("name").and_then(|n| n.as_str()) {
         let ctx = rinkx::new_ctx();
         let env = Env {
